@@ -2,6 +2,7 @@ import Just.Json
 import Just.Model.Quote
 import Just.Generated.Tables
 import Just.Model.Lexer
+import Just.Model.Render
 open Lean Just
 
 /-- first entry whose key occurs in `k` (the fake shell's matching rule) -/
@@ -180,6 +181,22 @@ def handleLex (j : Json) : Except String Json := do
   | .ok toks => return Json.mkObj [("tokens", Json.arr (toks.map tokJson).toArray)]
   | .error e => return Json.mkObj [("error", e.kind.name), ("token", tokJson e.tok)]
 
+def tokFromJson (j : Json) : Except String Lexer.Tok := do
+  return ⟨.unspecified, ← j.getObjValAs? Nat "offset", ← j.getObjValAs? Nat "length", ← j.getObjValAs? Nat "line",
+    ← j.getObjValAs? Nat "column"⟩
+
+/-- {"op":"context","src":S,"token":{..},"widths":[[codepoint,width],..]}: the source context the
+model prints for the token; characters missing from `widths` have width 1 -/
+def handleContext (j : Json) : Except String Json := do
+  let src ← j.getObjValAs? String "src"
+  let tok ← tokFromJson (← j.getObjVal? "token")
+  let widths : List (Nat × Nat) ← fromJson? (← j.getObjVal? "widths")
+  let w : Char → Nat := fun c => (widths.lookup c.toNat).getD 1
+  match Render.context w src.toList tok with
+  | none => return Json.mkObj [("context", Json.null)]
+  | some c => return Json.mkObj [("context", Json.mkObj [("line", toJson c.lineNumber), ("column", toJson c.columnNumber),
+      ("echoed", String.ofList c.echoed), ("caretOffset", toJson c.caretOffset), ("caretCount", toJson c.caretCount)])]
+
 def handle (line : String) : Json :=
   match Json.parse line with
   | .error e => Json.mkObj [("fatal", s!"parse: {e}")]
@@ -202,6 +219,7 @@ def handle (line : String) : Json :=
       | "evaluate" => handleEvaluate j
       | "shsplit" => handleShSplit j
       | "lex" => handleLex j
+      | "context" => handleContext j
       | _ => throw s!"unknown op {op}"
     match r with
     | .ok v => v
